@@ -24,7 +24,7 @@ func coinsStr(cs sdk.Coins) string {
 	return "{" + strings.Join(p, ",") + "}"
 }
 
-// c41Sets: every sorted coin set over the denoms with amounts from the alphabet (valid sets only: positive amounts).
+// c41Sets: every sorted coin set over the denoms with amounts from the alphabet (sorted, no duplicates; amounts >= 0, i.e. explicit zero entries occur in operands).
 func c41Sets(denoms []string, amts []*big.Int) []sdk.Coins {
 	var out []sdk.Coins
 	var rec func(i int, cur sdk.Coins)
@@ -104,6 +104,8 @@ func c41Coins(c *ev.Ctx) {
 	if c.Tier == "quick" {
 		amts = []*big.Int{big.NewInt(1), big.NewInt(2), new(big.Int).Sub(c41Max, big.NewInt(1)), c41Max}
 	}
+	// operands may carry explicit zero entries (constructible with Coins{...} literals); results must not
+	amts = append([]*big.Int{big.NewInt(0)}, amts...)
 	sets := c41Sets(denoms, amts)
 	var n int64
 	for _, a := range sets {
@@ -133,9 +135,20 @@ func c41Coins(c *ev.Ctx) {
 					neg = true
 				}
 			}
+			// operands with explicit zero entries: the operations' results are checked (amounts, canonical form,
+			// overflow / negative reporting); in-place effects on such (not IsValid) operands and the comparison
+			// helpers are outside what the property states
+			zeroOperand := false
+			for _, x := range append(append(sdk.Coins{}, a...), b...) {
+				if x.Amount.IsZero() {
+					zeroOperand = true
+				}
+			}
+			cp := func(x sdk.Coins) sdk.Coins { return append(sdk.Coins{}, x...) }
+			xa, xb := cp(a), cp(b)
 			// Add
 			var res sdk.Coins
-			p := safely(func() { res = a.Add(b) })
+			p := safely(func() { res = xa.Add(xb) })
 			switch {
 			case overflow && p == nil:
 				c.Report("coins/add/overflow-not-reported", fmt.Sprintf("%s + %s returned %s although a denomination exceeds 2^255-1", ca, cb, coinsStr(res)), []string{ca, cb})
@@ -150,13 +163,14 @@ func c41Coins(c *ev.Ctx) {
 					c.Report("coins/add/invalid", fmt.Sprintf("%s + %s = %s is not IsValid()", ca, cb, coinsStr(res)), []string{ca, cb})
 				}
 			}
-			if coinsStr(a) != ca || coinsStr(b) != cb {
-				c.Report("coins/add/mutates-input", fmt.Sprintf("%s + %s changed its operands to %s, %s", ca, cb, coinsStr(a), coinsStr(b)), []string{ca, cb})
+			if !zeroOperand && (coinsStr(xa) != ca || coinsStr(xb) != cb) {
+				c.Report("coins/add/mutates-input", fmt.Sprintf("%s + %s changed its operands to %s, %s", ca, cb, coinsStr(xa), coinsStr(xb)), []string{ca, cb})
 			}
 			// SafeSub / Sub
+			xa, xb = cp(a), cp(b)
 			var d2 sdk.Coins
 			var hasNeg bool
-			p = safely(func() { d2, hasNeg = a.SafeSub(b) })
+			p = safely(func() { d2, hasNeg = xa.SafeSub(xb) })
 			if p != nil {
 				c.Report("coins/safesub/panic", fmt.Sprintf("%s - %s panicked: %v", ca, cb, p), []string{ca, cb})
 			} else {
@@ -169,8 +183,9 @@ func c41Coins(c *ev.Ctx) {
 					c.Report("coins/safesub/amounts", fmt.Sprintf("%s - %s = %s, map arithmetic gives %s", ca, cb, coinsStr(d2), mapStr(diff)), []string{ca, cb})
 				}
 			}
+			xa, xb = cp(a), cp(b)
 			var d3 sdk.Coins
-			p = safely(func() { d3 = a.Sub(b) })
+			p = safely(func() { d3 = xa.Sub(xb) })
 			if neg && p == nil {
 				c.Report("coins/sub/negative-produced", fmt.Sprintf("%s - %s returned %s instead of reporting a negative result", ca, cb, coinsStr(d3)), []string{ca, cb})
 			} else if !neg && p != nil {
@@ -178,8 +193,12 @@ func c41Coins(c *ev.Ctx) {
 			} else if !neg && (canonicalErr(d3, false) != "" || !mapEq(d3, diff)) {
 				c.Report("coins/sub/amounts", fmt.Sprintf("%s - %s = %s, map arithmetic gives %s", ca, cb, coinsStr(d3), mapStr(diff)), []string{ca, cb})
 			}
-			if coinsStr(a) != ca || coinsStr(b) != cb {
-				c.Report("coins/sub/mutates-input", fmt.Sprintf("%s - %s changed its operands to %s, %s", ca, cb, coinsStr(a), coinsStr(b)), []string{ca, cb})
+			if !zeroOperand && (coinsStr(xa) != ca || coinsStr(xb) != cb) {
+				c.Report("coins/sub/mutates-input", fmt.Sprintf("%s - %s changed its operands to %s, %s", ca, cb, coinsStr(xa), coinsStr(xb)), []string{ca, cb})
+			}
+			if zeroOperand {
+				c.Distinct("coins|" + ca + "|" + cb)
+				continue
 			}
 			// comparisons with an unambiguous documented meaning
 			allGTE := true
